@@ -70,12 +70,14 @@ def run_impl_lines(ctx, driver, lines, nprocs=0, env=None, timeout=900, args=(),
     """Run the driver over case lines; when the process dies, the first case without output is recorded as
        crashed ('CRASH' result) and the remaining cases are re-run in a fresh process."""
     results = {}; crashed = []
-    todo = list(lines); n = 0
-    while todo and n <= max_restarts:
+    todo = list(lines); n = 0; hangs = 0
+    if ctx.quick(): timeout = min(timeout, 300)     # a hang must not stall the per-change tier
+    while todo and n <= max_restarts and hangs < 2:
         cf = write_cases(ctx, "%s.%d" % (name, n), todo)
         rc, out, raw, err = run_impl(ctx, driver, cf, nprocs=nprocs, env=env, timeout=timeout, args=args)
         results.update(out)
         if rc == 0: break
+        if rc == 124: hangs += 1
         missing = [i for i, l in enumerate(todo) if l.split()[0] not in out]
         if not missing: break
         first = missing[0]
